@@ -1,15 +1,16 @@
-(* C03 - syntax faults, family A (a statement lost its `;`): the parser on statements.  The structural induction of
-   GrammarStmt.v once more, over the faulty syntax of SynFaults.v: at the leaf `expect(;)` fails on the token behind
-   the gap (which is not `;` and cannot continue the expression), attaches MissingTrailingSemic at the token in front
-   of the gap and goes on from there; around the leaf everything is as for valid statements. *)
+(* C03 - syntax faults: the parser on statements with one missing closing token.  The structural induction of
+   GrammarStmt.v once more, over the faulty syntax of SynFaults.v: at the leaf `expect(closing token)` fails on the token
+   behind the gap, attaches its message at the token in front of the gap (the error state of a failing tag parser is the
+   state it was started in: in front of the comments) and goes on from there; around the leaf everything is as for valid
+   statements.  Behind the gap the parser runs with a non-empty error buffer: `Fr` (the buffer is only ever appended
+   to, and `info` hides it from what it encloses) reduces these runs to the ones GrammarStmt.v knows. *)
 From Coq Require Import List Lia Arith Bool.
-From Spl Require Import Spec.Grammar Model.Parser Proofs.GrammarBase Proofs.GrammarExpr Proofs.GrammarStmt Proofs.SynFaults.
+From Spl Require Import Spec.Grammar Model.Parser Proofs.GrammarBase Proofs.GrammarExpr Proofs.GrammarStmt.
+From Spl Require Import Proofs.SynFaults.
 Import ListNotations.
 Local Open Scope nat_scope.
 
-Ltac flens' :=
-  cbn [fl_var fl_fac fl_mul fl_add fl_cmp fl_type fl_stmt fl_stmts ffl_stmt ffl_stmts];
-  repeat (rewrite app_length || rewrite cm_length || cbn [length]).
+Ltac flens' := flens.
 
 Ltac fteq :=
   lazymatch goal with
@@ -34,13 +35,22 @@ Proof.
   induction c as [|x c IH]; cbn [cm map app next_sig]; [|exact IH]. destruct kd; try reflexivity; discriminate.
 Qed.
 
-Lemma gap_open_fol l : fol stopper l -> gap_open l = true -> fol gapfol l.
+Lemma gap_open_fol l : fol stopper l -> gap_open Semic l = true -> fol gapfol l.
 Proof.
   intros Hf Hg. destruct (fol_next _ _ Hf) as (kd & Hn & _ & _). destruct Hf as (c & kd' & rest & -> & Hs & HP).
   assert (kd' = kd).
   { clear - Hn Hs. induction c as [|x c IH]; cbn [cm map app next_sig] in Hn; [|exact (IH Hn)]. destruct kd'; try discriminate; congruence. }
   subst kd'. exists c, kd, rest. split; [reflexivity|]. split; [exact Hs|].
   unfold gapfol. rewrite (stopper_cmp _ HP). unfold gap_open in Hg. rewrite Hn in Hg. destruct kd; try reflexivity; discriminate.
+Qed.
+
+Lemma gap_open_fol' l : fol fol_cmp l -> gap_open Semic l = true -> fol gapfol l.
+Proof.
+  intros Hf Hg. destruct (fol_next _ _ Hf) as (kd & Hn & _ & _). destruct Hf as (c & kd' & rest & -> & Hs & HP).
+  assert (kd' = kd).
+  { clear - Hn Hs. induction c as [|x c IH]; cbn [cm map app next_sig] in Hn; [|exact (IH Hn)]. destruct kd'; try discriminate; congruence. }
+  subst kd'. exists c, kd, rest. split; [reflexivity|]. split; [exact Hs|].
+  unfold gapfol. rewrite HP. unfold gap_open in Hg. rewrite Hn in Hg. destruct kd; try reflexivity; discriminate.
 Qed.
 
 Lemma stmts_stopper b rest : fol (is_k RCurly) rest -> fol stopper (fl_stmts b ++ rest).
@@ -51,22 +61,46 @@ Proof.
     apply fol_here; [exact Hs|]. unfold stopper. rewrite Hk. reflexivity.
 Qed.
 
+Lemma stmt_first_stopper kd : stmt_first kd = true -> stopper kd = true.
+Proof. intros H. unfold stopper. rewrite H. reflexivity. Qed.
+
+Lemma stmt_stopper s rest : fol stopper (fl_stmt s ++ rest).
+Proof.
+  destruct (stmt_head s) as (c & kd & tl & -> & Hs & Hk). rewrite <- !app_assoc. cbn [app].
+  apply fol_here; [exact Hs | apply stmt_first_stopper, Hk].
+Qed.
+
 (* behind the gap stands a stopper, whatever the fault's position *)
 Lemma after_stopper :
   (forall s rest, fol stopper rest -> fol stopper (after_stmt s rest)) /\
   (forall b rest, fol (is_k RCurly) rest -> fol stopper (after_stmts b rest)).
 Proof.
-  apply fstmt_mutind; cbn [after_stmt after_stmts]; intros; auto.
+  apply fstmt_mutind; cbn [after_stmt after_stmts]; intros; auto; try apply stmt_stopper.
+  - apply fol_here; reflexivity.
   - apply H. apply fol_here; reflexivity.
   - apply H. apply fol_here; reflexivity.
   - apply H. apply stmts_stopper. assumption.
 Qed.
 
+(* the condition on the tokens behind the gap: behind a missing `;` stands a token that is not `;` (and cannot
+   continue an expression: it is a stopper); nothing is asked behind the other closing tokens *)
+Definition gapc (k : kind) (l : list kind) : Prop := match k with Semic => fol gapfol l | _ => True end.
+
+Lemma gapc_open k l : fol stopper l -> gap_open k l = true -> gapc k l.
+Proof.
+  intros Hf Hg. destruct k; try exact I. cbn [gapc]. apply gap_open_fol; assumption.
+Qed.
+
 Lemma fstmt_head s : exists c kd tl, ffl_stmt s = cm c ++ kd :: tl /\ sig kd = true /\ stmt_first kd = true.
 Proof.
-  destruct s as [v c1 e|c1 f c2 a c3|c1 c2 e c3 t|c1 c2 e c3 t c4 s'|c1 c2 e c3 t c4 s'|c1 c2 e c3 b|c1 b c2]; cbn [ffl_stmt].
+  destruct s as [v c1 e|c1 f c2 a c3|c1 f c2 a c4|c1 c2 e t|c1 c2 e t c4 s'|c1 c2 e b
+                |c1 c2 e c3 t|c1 c2 e c3 t c4 s'|c1 c2 e c3 t c4 s'|c1 c2 e c3 b|c1 b c2]; cbn [ffl_stmt].
   - rewrite fl_var_head, <- app_assoc. cbn [app]. now eexists _, (Ident _), _.
   - now eexists c1, (Ident f), _.
+  - now eexists c1, (Ident f), _.
+  - now eexists c1, KIf, _.
+  - now eexists c1, KIf, _.
+  - now eexists c1, KWhile, _.
   - now eexists c1, KIf, _.
   - now eexists c1, KIf, _.
   - now eexists c1, KIf, _.
@@ -83,9 +117,116 @@ Proof.
     apply fol_here; [exact Hs|]. destruct kd; try discriminate; reflexivity.
 Qed.
 
+
+(* ---- comma-separated lists closed by something else than `)` (GrammarStmt.v, Section Sep, with the closing token as
+   a parameter): behind a missing `)` the list of arguments is followed by `;` ---- *)
+Section SepG.
+Variable toks : list token.
+Notation at_ := (at_ toks).
+Context {A B : Type} (fl : A -> list kind) (x : A -> B) (p : parser B) (N : nat) (stop : kind -> bool).
+Hypothesis stop_nc : forall kd, stop kd = true -> is_k Comma kd = false.
+Definition follows_g (kd : kind) : bool := is_k Comma kd || stop kd.
+Hypothesis elem_ok : forall a k rest, len (fl a) <= N -> at_ k (fl a ++ rest) -> fol follows_g rest ->
+  p (mk k k) = POk (mk (k + len (fl a)) k) (x a).
+
+Lemma fol_tail_g l rest : fol stop rest -> fol follows_g (fl_tail fl l ++ rest).
+Proof.
+  intros H. destruct l as [|[c a] l]; cbn [fl_tail flat_map fst snd app].
+  - revert H. apply fol_weaken. intros kd Hk. unfold follows_g. rewrite Hk. apply orb_true_r.
+  - rewrite <- !app_assoc. cbn [app]. now apply fol_here.
+Qed.
+
+Lemma tail_steps_g l : forall k r rest, r <= k -> len (fl_tail fl l) <= N -> at_ k (fl_tail fl l ++ rest) ->
+  fol stop rest ->
+  steps (tail_p toks p) (mk k r) (x_tail fl x (k - r) l) (mk (k + len (fl_tail fl l)) r).
+Proof.
+  induction l as [|[c a] l IH]; intros k r rest Hr HN H Hfol.
+  - cbn [fl_tail flat_map length x_tail]. rewrite Nat.add_0_r. constructor.
+  - rewrite tail_len in *. unfold fl_tail in H. cbn [flat_map fst snd] in H. flat_in H. fold (fl_tail fl l) in H.
+    destruct (p_tag_at toks (is_k Comma) k k _ _ _ H eq_refl) as (t & _ & E).
+    pose proof (at_cm_cons _ _ _ _ _ H) as H1.
+    pose proof (elem_ok a _ _ ltac:(lia) H1 (fol_tail_g l rest Hfol)) as E2.
+    cbn [x_tail]. eapply steps_cons with (s1 := mk (k + len c + 1 + len (fl a)) r).
+    + unfold tail_p. comb. rewrite E; ifs; norm. rewrite E2; norm. teq.
+    + cbn [pos]. lia.
+    + apply at_app in H1. specialize (IH (k + len c + 1 + len (fl a)) r rest ltac:(lia) ltac:(lia) H1 Hfol).
+      replace (k + len c + 1 + len (fl a) - r) with (k - r + len c + 1 + len (fl a)) in IH by lia.
+      replace (k + (len c + 1 + len (fl a) + len (fl_tail fl l))) with (k + len c + 1 + len (fl a) + len (fl_tail fl l)) by lia.
+      exact IH.
+Qed.
+
+Lemma list_ok_g a l k r rest fuel : r <= k -> len (fl_sep fl (Some (a, l))) <= N -> len l < fuel ->
+  at_ k (fl_sep fl (Some (a, l)) ++ rest) -> fol stop rest ->
+  p_list toks fuel p (mk k r) = POk (mk (k + len (fl_sep fl (Some (a, l)))) r) (x_sep fl x (k - r) (Some (a, l))).
+Proof.
+  intros Hr HN Hf H Hfol. cbn [fl_sep] in *. rewrite app_length in *. flat_in H.
+  rewrite p_list_eq. comb.
+  rewrite (elem_ok a k _ ltac:(lia) H (fol_tail_g l rest Hfol)). norm.
+  apply at_app in H.
+  pose proof (tail_steps_g l (k + len (fl a)) r rest ltac:(lia) ltac:(lia) H Hfol) as Hst.
+  destruct Hfol as (c & kd & rest' & -> & Hs & Hk). apply at_app in H.
+  assert (Ee : tail_p toks p (mk (k + len (fl a) + len (fl_tail fl l)) r) = PErr (mk (k + len (fl a) + len (fl_tail fl l)) r)).
+  { unfold tail_p. comb. rewrite (p_tag_no toks (is_k Comma) _ _ _ _ _ H Hs); [reflexivity|]. apply stop_nc, Hk. }
+  rewrite (many0_steps' _ _ _ _ _ fuel Hst Ee) by (now rewrite (proj2 (tail_count fl x l))). norm.
+  cbn [x_sep]. replace (k - r + len (fl a)) with (k + len (fl a) - r) by lia. teq.
+Qed.
+End SepG.
+
 Section FStmt.
 Variable toks : list token.
 Notation at_ := (at_ toks).
+
+
+(* ---- behind the gap the error buffer is not empty: every parser only appends to it, and `info` hides it from what it
+   encloses, so the run is the run on the empty buffer with the buffer put in front ---- *)
+Definition map_eb {A} (b : list err) (r : pres A) : pres A :=
+  match r with
+  | POk s a => POk (set_ebuf s (b ++ ebuf s)) a
+  | PErr s => PErr (set_ebuf s (b ++ ebuf s))
+  | PFuel => PFuel
+  end.
+Definition Fr {A} (p : parser A) : Prop := forall s b, p (set_ebuf s b) = map_eb b (p (set_ebuf s [])).
+
+Lemma Fr_tag f : Fr (p_tag toks f).
+Proof.
+  intros s b. unfold p_tag, adv, set_ebuf. cbn [pos refp ebuf].
+  destruct (nth_error toks (pos s + length (comments_at toks (pos s)))) as [t|]; [destruct (f (tk t))|];
+    unfold map_eb, set_ebuf; cbn [pos refp ebuf]; rewrite app_nil_r; reflexivity.
+Qed.
+
+Lemma Fr_info {A} (q : parser A) : Fr (p_info q).
+Proof.
+  intros s b. unfold p_info, set_ebuf. cbn [pos refp ebuf].
+  destruct (q {| pos := pos s; refp := refp s; ebuf := [] |}) as [s' a|s'|]; unfold map_eb, set_ebuf; cbn [pos refp ebuf];
+    rewrite ?app_nil_r; reflexivity.
+Qed.
+
+Lemma Fr_map {A C} (f : A -> C) p : Fr p -> Fr (p_map f p).
+Proof. intros H s b. unfold p_map, bind. rewrite (H s b). destruct (p (set_ebuf s [])); reflexivity. Qed.
+
+Lemma Fr_alt {A} (p q : parser A) : Fr p -> Fr q -> Fr (p_alt p q).
+Proof. intros Hp Hq s b. unfold p_alt. rewrite (Hp s b), (Hq s b). destruct (p (set_ebuf s [])); reflexivity. Qed.
+
+Lemma Fr_restore {A} (p : parser A) : Fr p -> Fr (p_restore p).
+Proof.
+  intros Hp s b. unfold p_restore. rewrite (Hp s b). destruct (p (set_ebuf s [])); unfold map_eb; try reflexivity.
+  unfold set_ebuf. cbn [pos refp ebuf]. rewrite app_nil_r. reflexivity.
+Qed.
+
+Lemma Fr_stmt f : Fr (p_stmt toks f).
+Proof.
+  destruct f as [|f]; [intros s b; reflexivity|]. intros s b. rewrite !p_stmt_S. revert s b.
+  match goal with |- forall s b, ?P (set_ebuf s b) = _ => change (Fr P) end.
+  unfold p_call, p_assign. repeat first [apply Fr_restore | apply Fr_alt | apply Fr_map | apply Fr_info].
+Qed.
+
+(* a state met behind the gap, written as the buffer put on a state GrammarStmt.v knows *)
+Ltac fr_at P :=
+  match goal with
+  | |- context [P {| pos := ?a; refp := ?b; ebuf := ?c |}] =>
+      change (P {| pos := a; refp := b; ebuf := c |}) with (P (set_ebuf (mk a b) c))
+  end.
+Ltac fr_done := unfold map_eb, set_ebuf; cbn [pos refp ebuf app].
 
 (* ---- the leaves ---- *)
 Lemma fassign_ok v c1 e k r rest fuel : r <= k -> 6 * len (ffl_stmt (FAsg v c1 e)) + 6 <= fuel ->
@@ -104,7 +245,7 @@ Proof.
   apply at_app in H.
   rewrite (p_tag_no toks (is_k Semic) _ r _ _ _ H Hsg) by (apply negb_true_iff in Hns; exact Hns).
   unfold expect_error, push_err. norm. cbn [app].
-  rewrite Nat.sub_diag. cbn [fx_stmt]. unfold finfo, gap_err. rewrite Hl. fteq.
+  rewrite Nat.sub_diag. cbn [fxg_stmt gap_stmt]. unfold einfo, e_real, gap_err, msg_of_kind. rewrite Hl. fteq.
 Qed.
 
 (* list_ok of GrammarStmt.v wants `)` behind the list; that is what stands there *)
@@ -133,29 +274,82 @@ Proof.
     apply at_cm_cons in H.
     rewrite (p_tag_no toks (is_k Semic) _ r _ _ _ H Hsg Hns).
     unfold expect_error, push_err. norm. cbn [app].
-    cbn [fx_stmt]. unfold finfo, gap_err. rewrite Hl. fteq.
+    cbn [fxg_stmt gap_stmt]. unfold einfo, e_real, gap_err, msg_of_kind. rewrite Hl. fteq.
   - cbn [fl_sep app length x_sep] in *. rewrite (la_tag_at toks _ _ _ _ _ H eq_refl). norm.
     destruct (p_tag_at toks (is_k RParen) _ r _ _ _ H eq_refl) as (t2 & _ & E2). rewrite E2; ifs; norm.
     apply at_cm_cons in H.
     rewrite (p_tag_no toks (is_k Semic) _ r _ _ _ H Hsg Hns).
     unfold expect_error, push_err. norm. cbn [app].
-    cbn [fx_stmt x_sep]. unfold finfo, gap_err. rewrite Hl. fteq.
+    cbn [fxg_stmt gap_stmt x_sep]. unfold einfo, e_real, gap_err, msg_of_kind. rewrite Hl. fteq.
+Qed.
+
+
+Lemma stmt_fol_cmp t rest : fol fol_cmp (fl_stmt t ++ rest).
+Proof. apply (fol_weaken stopper); [exact stopper_cmp | apply stmt_stopper]. Qed.
+
+Lemma semic_follows kd : follows_g (is_k Semic) kd = true -> fol_cmp kd = true /\
+  (match kd with RParen | Comma => true | _ => false end || match kd with LCurly | RCurly | Semic | KIf | KWhile => true | _ => false end) = true.
+Proof. destruct kd; try discriminate; split; reflexivity. Qed.
+
+(* an argument in front of `,` or `;` *)
+Lemma arg_ok_g f N : 6 * N + 6 <= f -> forall e k rest, len (fl_cmp e) <= N -> at_ k (fl_cmp e ++ rest) ->
+  fol (follows_g (is_k Semic)) rest -> p_argument toks f (mk k k) = POk (mk (k + len (fl_cmp e)) k) (x_cmp 0 e).
+Proof.
+  intros Hf e k rest HN H Hfol. unfold p_argument, p_expr. comb.
+  rewrite (cmp_ok toks e k k rest f (le_n _) ltac:(lia) H (fol_weaken _ _ _ (fun kd Hk => proj1 (semic_follows kd Hk)) Hfol)). norm.
+  destruct Hfol as (c & kd & rest' & -> & Hs & Hk). apply at_app in H.
+  unfold la_arg, la_param, la_var_dec, la_stmt. rewrite !(la_tag_at toks _ _ _ _ _ H Hs).
+  rewrite Nat.sub_diag. destruct kd; try discriminate; reflexivity.
+Qed.
+
+(* the `)` of a call is missing: `expect())` fails on the `;`, which `expect(;)` then takes *)
+Lemma fcallp_ok c1 f c2 a c4 k r rest fuel : r <= k -> 6 * len (ffl_stmt (FCalP c1 f c2 a c4)) + 12 <= fuel ->
+  at_ k (ffl_stmt (FCalP c1 f c2 a c4) ++ rest) ->
+  p_call toks fuel (mk k r) = POk (mk (k + len (ffl_stmt (FCalP c1 f c2 a c4))) r) (fx_stmt (k - r) (FCalP c1 f c2 a c4)).
+Proof.
+  intros Hr Hf H. cbn [ffl_stmt] in H. flat_in H.
+  assert (Hl : len (ffl_stmt (FCalP c1 f c2 a c4)) = len c1 + 1 + len c2 + 1 + len (fl_sep fl_cmp a) + len c4 + 1) by (flens'; lia).
+  unfold p_call. comb.
+  rewrite (p_ident_at toks k r _ _ _ H Hr). norm. apply at_cm_cons in H.
+  destruct (p_tag_at toks (is_k LParen) _ r _ _ _ H eq_refl) as (t1 & _ & E1). rewrite E1; ifs; norm.
+  apply at_cm_cons in H.
+  assert (Hb : match a with Some (_, l) => len l < fuel | None => True end).
+  { destruct a as [[e l]|]; [|exact I]. pose proof (tail_len_le fl_cmp l). cbn [fl_sep] in Hl. rewrite app_length in Hl. lia. }
+  destruct a as [[e l]|].
+  - destruct (head_cmp e) as (c & kd & tl & E & Hs & Hk). pose proof H as H0. cbn [fl_sep] in H0. rewrite E in H0. flat_in H0.
+    rewrite (la_tag_at toks _ _ _ _ _ H0 Hs), (expr_start_not_close _ Hk). norm.
+    rewrite (list_ok_g toks fl_cmp (x_cmp 0) (p_argument toks fuel) (len (fl_sep fl_cmp (Some (e, l)))) (is_k Semic)
+               (fun kd Hk => ltac:(destruct kd; try discriminate; reflexivity))
+               (arg_ok_g fuel (len (fl_sep fl_cmp (Some (e, l)))) ltac:(lia)) e l (k + len c1 + 1 + len c2 + 1) r
+               (cm c4 ++ Semic :: rest) fuel ltac:(lia) (le_n _) Hb H (fol_here (is_k Semic) c4 Semic _ eq_refl eq_refl)).
+    norm. apply at_app in H.
+    rewrite (p_tag_no toks (is_k RParen) _ r _ _ _ H eq_refl eq_refl).
+    unfold expect_error, push_err. norm. cbn [app].
+    fr_at (p_tag toks (is_k Semic)). rewrite Fr_tag. unfold set_ebuf at 1; cbn [pos refp ebuf].
+    destruct (p_tag_at toks (is_k Semic) _ r _ _ _ H eq_refl) as (t3 & _ & E3). rewrite E3; ifs. fr_done. norm.
+    cbn [fxg_stmt gap_stmt]. unfold einfo, e_real, gap_err, msg_of_kind. rewrite Hl. pose proof (fl_cmp_pos e). fteq.
+  - cbn [fl_sep app length x_sep] in *. rewrite (la_tag_at toks _ _ _ _ _ H eq_refl). norm.
+    rewrite (p_tag_no toks (is_k RParen) _ r _ _ _ H eq_refl eq_refl).
+    unfold expect_error, push_err. norm. cbn [app].
+    fr_at (p_tag toks (is_k Semic)). rewrite Fr_tag. unfold set_ebuf at 1; cbn [pos refp ebuf].
+    destruct (p_tag_at toks (is_k Semic) _ r _ _ _ H eq_refl) as (t3 & _ & E3). rewrite E3; ifs. fr_done. norm.
+    cbn [fxg_stmt gap_stmt x_sep fl_sep length]. unfold einfo, e_real, gap_err, msg_of_kind. rewrite Hl. cbn [fl_sep length]. fteq.
 Qed.
 
 (* ---- statements ---- *)
 Definition FStmtOK (s : fstmt) : Prop :=
   forall k r rest fuel, r <= k -> 6 * len (ffl_stmt s) + 13 <= fuel -> else_ok (orig_stmt s) = true ->
-  at_ k (ffl_stmt s ++ rest) -> (open_if (orig_stmt s) = true -> fol noelse rest) -> fol gapfol (after_stmt s rest) ->
+  at_ k (ffl_stmt s ++ rest) -> (open_if (orig_stmt s) = true -> fol noelse rest) -> gapc (gk_stmt s) (after_stmt s rest) ->
   p_stmt toks fuel (mk k r) = POk (mk (k + len (ffl_stmt s)) r) (fx_stmt (k - r) s).
 
 Definition FStmtsOK (b : fstmts) : Prop :=
   forall k r rest f, r <= k -> 6 * len (ffl_stmts b) + 13 <= f -> else_oks (orig_stmts b) = true ->
-  at_ k (ffl_stmts b ++ rest) -> fol (is_k RCurly) rest -> fol gapfol (after_stmts b rest) ->
+  at_ k (ffl_stmts b ++ rest) -> fol (is_k RCurly) rest -> gapc (gk_stmts b) (after_stmts b rest) ->
   steps (stmt_ref toks f) (mk k r) (fx_stmts (k - r) b) (mk (k + len (ffl_stmts b)) r).
 
 Lemma fstmt_asg v c1 e : FStmtOK (FAsg v c1 e).
 Proof.
-  intros k r rest fuel Hr Hf Hok H Hfol Hgap. cbn [after_stmt] in Hgap.
+  intros k r rest fuel Hr Hf Hok H Hfol Hgap. cbn [after_stmt gk_stmt gapc] in Hgap.
   destruct fuel as [|f]; [lia|]. rewrite p_stmt_S. comb.
   pose proof H as H0. cbn [ffl_stmt] in H0. flat_in H0.
   destruct (call_no_asg toks v c1 _ k r f H0 Hr) as (e0 & Ec).
@@ -169,7 +363,7 @@ Qed.
 
 Lemma fstmt_cal c1 g c2 a c3 : FStmtOK (FCal c1 g c2 a c3).
 Proof.
-  intros k r rest fuel Hr Hf Hok H Hfol Hgap. cbn [after_stmt] in Hgap.
+  intros k r rest fuel Hr Hf Hok H Hfol Hgap. cbn [after_stmt gk_stmt gapc] in Hgap.
   destruct fuel as [|f]; [lia|]. rewrite p_stmt_S. comb.
   pose proof H as H0. cbn [ffl_stmt] in H0. flat_in H0.
   rewrite (p_tag_no toks (is_k Semic) k r _ _ _ H0 eq_refl eq_refl).
@@ -179,10 +373,101 @@ Proof.
   rewrite (fcall_ok c1 g c2 a c3 k r rest f Hr ltac:(lia) H Hgap). reflexivity.
 Qed.
 
+Lemma fstmt_calp c1 g c2 a c4 : FStmtOK (FCalP c1 g c2 a c4).
+Proof.
+  intros k r rest fuel Hr Hf Hok H Hfol _.
+  destruct fuel as [|f]; [lia|]. rewrite p_stmt_S. comb.
+  pose proof H as H0. cbn [ffl_stmt] in H0. flat_in H0.
+  rewrite (p_tag_no toks (is_k Semic) k r _ _ _ H0 eq_refl eq_refl).
+  rewrite (p_tag_no toks (is_k KIf) k r _ _ _ H0 eq_refl eq_refl).
+  rewrite (p_tag_no toks (is_k KWhile) k r _ _ _ H0 eq_refl eq_refl).
+  rewrite (p_tag_no toks (is_k LCurly) k r _ _ _ H0 eq_refl eq_refl).
+  rewrite (fcallp_ok c1 g c2 a c4 k r rest f Hr ltac:(lia) H). reflexivity.
+Qed.
+
+(* the `)` of a condition is missing: `expect())` fails on the first token of the statement behind it *)
+Lemma fstmt_ifp c1 c2 e t : FStmtOK (FIfP c1 c2 e t).
+Proof.
+  intros k r rest fuel Hr Hf Hok H Hfol _. cbn [ffl_stmt] in H. flat_in H. cbn [orig_stmt else_ok open_if] in Hok, Hfol.
+  assert (Hl : len (ffl_stmt (FIfP c1 c2 e t)) = len c1 + 1 + len c2 + 1 + len (fl_cmp e) + len (fl_stmt t)) by (flens'; lia).
+  pose proof (fun _ : open_if t = true => Hfol eq_refl) as Hft.
+  destruct (stmt_head t) as (ct & kt & tlt & Et & Hst & Hkt).
+  destruct fuel as [|f]; [lia|]. rewrite p_stmt_S. unfold stmt_ref, p_expr. comb.
+  rewrite (p_tag_no toks (is_k Semic) k r _ _ _ H eq_refl eq_refl).
+  destruct (p_tag_at toks (is_k KIf) k r _ _ _ H eq_refl) as (t1 & _ & E1). rewrite E1; ifs; norm.
+  apply at_cm_cons in H.
+  destruct (p_tag_at toks (is_k LParen) _ r _ _ _ H eq_refl) as (t2 & _ & E2). rewrite E2; ifs; norm.
+  apply at_cm_cons in H.
+  rewrite (cmp_ok toks e _ _ _ f (le_n _) ltac:(lia) H (stmt_fol_cmp t rest)). norm.
+  apply at_app in H. pose proof H as H1. rewrite Et in H1. flat_in H1.
+  rewrite (p_tag_no toks (is_k RParen) _ r _ _ _ H1 Hst) by (destruct kt; try discriminate; reflexivity).
+  unfold expect_error, push_err. norm. cbn [app].
+  fr_at (p_stmt toks f). rewrite Fr_stmt. unfold set_ebuf at 1; cbn [pos refp ebuf].
+  rewrite (proj1 (stmt_all toks) t _ _ rest f (le_n _)) by side. fr_done. norm.
+  apply at_app in H. destruct (Hfol eq_refl) as (c & kd & rest' & -> & Hs & Hk).
+  fr_at (p_tag toks (is_k KElse)). rewrite Fr_tag. unfold set_ebuf at 1; cbn [pos refp ebuf].
+  rewrite (p_tag_no toks (is_k KElse) _ r _ _ _ H Hs) by (unfold noelse in Hk; now destruct (is_k KElse kd)).
+  fr_done. norm. rewrite !Nat.sub_diag. cbn [fxg_stmt gap_stmt]. unfold einfo, e_real, gap_err, msg_of_kind. rewrite Hl.
+  pose proof (fl_cmp_pos e). fteq.
+Qed.
+
+Lemma fstmt_ifpe c1 c2 e t c4 s' : FStmtOK (FIfPE c1 c2 e t c4 s').
+Proof.
+  intros k r rest fuel Hr Hf Hok H Hfol _. cbn [ffl_stmt] in H. flat_in H. cbn [orig_stmt else_ok open_if] in Hok, Hfol.
+  apply andb_prop in Hok. destruct Hok as [Hok Hok2]. apply andb_prop in Hok. destruct Hok as [Hno Hok1].
+  apply negb_true_iff in Hno.
+  assert (Hl : len (ffl_stmt (FIfPE c1 c2 e t c4 s')) =
+               len c1 + 1 + len c2 + 1 + len (fl_cmp e) + len (fl_stmt t) + len c4 + 1 + len (fl_stmt s')) by (flens'; lia).
+  assert (Hft : open_if t = true -> fol noelse (cm c4 ++ KElse :: fl_stmt s' ++ rest)) by (intros Ho; congruence).
+  destruct (stmt_head t) as (ct & kt & tlt & Et & Hst & Hkt).
+  destruct fuel as [|f]; [lia|]. rewrite p_stmt_S. unfold stmt_ref, p_expr. comb.
+  rewrite (p_tag_no toks (is_k Semic) k r _ _ _ H eq_refl eq_refl).
+  destruct (p_tag_at toks (is_k KIf) k r _ _ _ H eq_refl) as (t1 & _ & E1). rewrite E1; ifs; norm.
+  apply at_cm_cons in H.
+  destruct (p_tag_at toks (is_k LParen) _ r _ _ _ H eq_refl) as (t2 & _ & E2). rewrite E2; ifs; norm.
+  apply at_cm_cons in H.
+  rewrite (cmp_ok toks e _ _ _ f (le_n _) ltac:(lia) H (stmt_fol_cmp t _)). norm.
+  apply at_app in H. pose proof H as H1. rewrite Et in H1. flat_in H1.
+  rewrite (p_tag_no toks (is_k RParen) _ r _ _ _ H1 Hst) by (destruct kt; try discriminate; reflexivity).
+  unfold expect_error, push_err. norm. cbn [app].
+  fr_at (p_stmt toks f). rewrite Fr_stmt. unfold set_ebuf at 1; cbn [pos refp ebuf].
+  rewrite (proj1 (stmt_all toks) t _ _ (cm c4 ++ KElse :: fl_stmt s' ++ rest) f (le_n _)) by side. fr_done. norm.
+  apply at_app in H.
+  fr_at (p_tag toks (is_k KElse)). rewrite Fr_tag. unfold set_ebuf at 1; cbn [pos refp ebuf].
+  destruct (p_tag_at toks (is_k KElse) _ r _ _ _ H eq_refl) as (t4 & _ & E4). rewrite E4; ifs. fr_done. norm.
+  apply at_cm_cons in H.
+  fr_at (p_stmt toks f). rewrite Fr_stmt. unfold set_ebuf at 1; cbn [pos refp ebuf].
+  rewrite (proj1 (stmt_all toks) s' _ _ rest f (le_n _)) by side. fr_done. norm.
+  rewrite !Nat.sub_diag. cbn [fxg_stmt gap_stmt]. unfold einfo, e_real, gap_err, msg_of_kind. rewrite Hl.
+  pose proof (fl_cmp_pos e). fteq.
+Qed.
+
+Lemma fstmt_whlp c1 c2 e b : FStmtOK (FWhlP c1 c2 e b).
+Proof.
+  intros k r rest fuel Hr Hf Hok H Hfol _. cbn [ffl_stmt] in H. flat_in H. cbn [orig_stmt else_ok open_if] in Hok, Hfol.
+  assert (Hl : len (ffl_stmt (FWhlP c1 c2 e b)) = len c1 + 1 + len c2 + 1 + len (fl_cmp e) + len (fl_stmt b)) by (flens'; lia).
+  destruct (stmt_head b) as (ct & kt & tlt & Et & Hst & Hkt).
+  destruct fuel as [|f]; [lia|]. rewrite p_stmt_S. unfold stmt_ref, p_expr. comb.
+  rewrite (p_tag_no toks (is_k Semic) k r _ _ _ H eq_refl eq_refl).
+  rewrite (p_tag_no toks (is_k KIf) k r _ _ _ H eq_refl eq_refl).
+  destruct (p_tag_at toks (is_k KWhile) k r _ _ _ H eq_refl) as (t1 & _ & E1). rewrite E1; ifs; norm.
+  apply at_cm_cons in H.
+  destruct (p_tag_at toks (is_k LParen) _ r _ _ _ H eq_refl) as (t2 & _ & E2). rewrite E2; ifs; norm.
+  apply at_cm_cons in H.
+  rewrite (cmp_ok toks e _ _ _ f (le_n _) ltac:(lia) H (stmt_fol_cmp b rest)). norm.
+  apply at_app in H. pose proof H as H1. rewrite Et in H1. flat_in H1.
+  rewrite (p_tag_no toks (is_k RParen) _ r _ _ _ H1 Hst) by (destruct kt; try discriminate; reflexivity).
+  unfold expect_error, push_err. norm. cbn [app].
+  fr_at (p_stmt toks f). rewrite Fr_stmt. unfold set_ebuf at 1; cbn [pos refp ebuf].
+  rewrite (proj1 (stmt_all toks) b _ _ rest f (le_n _)) by side. fr_done. norm.
+  rewrite !Nat.sub_diag. cbn [fxg_stmt gap_stmt]. unfold einfo, e_real, gap_err, msg_of_kind. rewrite Hl.
+  pose proof (fl_cmp_pos e). fteq.
+Qed.
+
 Lemma fstmt_ift c1 c2 e c3 t : FStmtOK t -> FStmtOK (FIfT c1 c2 e c3 t).
 Proof.
   intros IHt k r rest fuel Hr Hf Hok H Hfol Hgap. cbn [ffl_stmt] in H. flat_in H. cbn [orig_stmt else_ok] in Hok.
-  cbn [after_stmt] in Hgap. cbn [orig_stmt open_if] in Hfol.
+  cbn [after_stmt gk_stmt gapc] in Hgap. cbn [orig_stmt open_if] in Hfol.
   assert (Hl : len (ffl_stmt (FIfT c1 c2 e c3 t)) = len c1 + 1 + len c2 + 1 + len (fl_cmp e) + len c3 + 1 + len (ffl_stmt t)) by (flens'; lia).
   pose proof (fun _ : open_if (orig_stmt t) = true => Hfol eq_refl) as Hft.
   destruct fuel as [|f]; [lia|]. rewrite p_stmt_S. unfold stmt_ref, p_expr. comb.
@@ -198,13 +483,13 @@ Proof.
   rewrite (IHt _ _ rest f (le_n _)) by side. norm.
   apply at_app in H. destruct (Hfol eq_refl) as (c & kd & rest' & -> & Hs & Hk).
   rewrite (p_tag_no toks (is_k KElse) _ r _ _ _ H Hs) by (unfold noelse in Hk; now destruct (is_k KElse kd)).
-  norm. rewrite !Nat.sub_diag. cbn [fx_stmt]. unfold mkinfo. rewrite Hl. fteq.
+  norm. rewrite !Nat.sub_diag. cbn [fxg_stmt fxg_stmts]. unfold mkinfo. rewrite Hl. fteq.
 Qed.
 
 Lemma fstmt_ife1 c1 c2 e c3 t c4 s' : FStmtOK t -> FStmtOK (FIfE1 c1 c2 e c3 t c4 s').
 Proof.
   intros IHt k r rest fuel Hr Hf Hok H Hfol Hgap. cbn [ffl_stmt] in H. flat_in H. cbn [orig_stmt else_ok open_if] in Hok, Hfol.
-  cbn [after_stmt] in Hgap.
+  cbn [after_stmt gk_stmt gapc] in Hgap.
   apply andb_prop in Hok. destruct Hok as [Hok Hok2]. apply andb_prop in Hok. destruct Hok as [Hno Hok1].
   apply negb_true_iff in Hno.
   assert (Hl : len (ffl_stmt (FIfE1 c1 c2 e c3 t c4 s')) =
@@ -225,13 +510,13 @@ Proof.
   destruct (p_tag_at toks (is_k KElse) _ r _ _ _ H eq_refl) as (t4 & _ & E4). rewrite E4; ifs; norm.
   apply at_cm_cons in H.
   rewrite (proj1 (stmt_all toks) s' _ _ rest f (le_n _)) by side. norm.
-  rewrite !Nat.sub_diag. cbn [fx_stmt]. unfold mkinfo. rewrite Hl. fteq.
+  rewrite !Nat.sub_diag. cbn [fxg_stmt fxg_stmts]. unfold mkinfo. rewrite Hl. fteq.
 Qed.
 
 Lemma fstmt_ife2 c1 c2 e c3 t c4 s' : FStmtOK s' -> FStmtOK (FIfE2 c1 c2 e c3 t c4 s').
 Proof.
   intros IHs k r rest fuel Hr Hf Hok H Hfol Hgap. cbn [ffl_stmt] in H. flat_in H. cbn [orig_stmt else_ok open_if] in Hok, Hfol.
-  cbn [after_stmt] in Hgap.
+  cbn [after_stmt gk_stmt gapc] in Hgap.
   apply andb_prop in Hok. destruct Hok as [Hok Hok2]. apply andb_prop in Hok. destruct Hok as [Hno Hok1].
   apply negb_true_iff in Hno.
   assert (Hl : len (ffl_stmt (FIfE2 c1 c2 e c3 t c4 s')) =
@@ -252,13 +537,13 @@ Proof.
   destruct (p_tag_at toks (is_k KElse) _ r _ _ _ H eq_refl) as (t4 & _ & E4). rewrite E4; ifs; norm.
   apply at_cm_cons in H.
   rewrite (IHs _ _ rest f (le_n _)) by side. norm.
-  rewrite !Nat.sub_diag. cbn [fx_stmt]. unfold mkinfo. rewrite Hl. fteq.
+  rewrite !Nat.sub_diag. cbn [fxg_stmt fxg_stmts]. unfold mkinfo. rewrite Hl. fteq.
 Qed.
 
 Lemma fstmt_whl c1 c2 e c3 b : FStmtOK b -> FStmtOK (FWhl c1 c2 e c3 b).
 Proof.
   intros IHb k r rest fuel Hr Hf Hok H Hfol Hgap. cbn [ffl_stmt] in H. flat_in H. cbn [orig_stmt else_ok open_if] in Hok, Hfol.
-  cbn [after_stmt] in Hgap.
+  cbn [after_stmt gk_stmt gapc] in Hgap.
   assert (Hl : len (ffl_stmt (FWhl c1 c2 e c3 b)) = len c1 + 1 + len c2 + 1 + len (fl_cmp e) + len c3 + 1 + len (ffl_stmt b)) by (flens'; lia).
   destruct fuel as [|f]; [lia|]. rewrite p_stmt_S. unfold stmt_ref, p_expr. comb.
   rewrite (p_tag_no toks (is_k Semic) k r _ _ _ H eq_refl eq_refl).
@@ -272,12 +557,12 @@ Proof.
   destruct (p_tag_at toks (is_k RParen) _ r _ _ _ H eq_refl) as (t3 & _ & E3). rewrite E3; ifs; norm.
   apply at_cm_cons in H.
   rewrite (IHb _ _ rest f (le_n _)) by side. norm.
-  rewrite !Nat.sub_diag. cbn [fx_stmt]. unfold mkinfo. rewrite Hl. fteq.
+  rewrite !Nat.sub_diag. cbn [fxg_stmt fxg_stmts]. unfold mkinfo. rewrite Hl. fteq.
 Qed.
 
 Lemma fx_stmts_len o b : len (fx_stmts o b) <= len (ffl_stmts b).
 Proof.
-  revert o. induction b as [s r|s r IH]; intros o; cbn [fx_stmts ffl_stmts length]; rewrite app_length.
+  revert o. induction b as [s r|s r IH]; intros o; cbn [fxg_stmts ffl_stmts length]; rewrite app_length.
   - pose proof (x_stmts_len (o + len (ffl_stmt s)) r). pose proof (proj1 ffl_pos s). lia.
   - pose proof (stmt_len_pos s). specialize (IH (o + len (fl_stmt s))). lia.
 Qed.
@@ -285,7 +570,7 @@ Qed.
 Lemma fstmt_blk c1 b c2 : FStmtsOK b -> FStmtOK (FBlk c1 b c2).
 Proof.
   intros IHb k r rest fuel Hr Hf Hok H Hfol Hgap. cbn [ffl_stmt] in H. flat_in H. cbn [orig_stmt else_ok] in Hok.
-  cbn [after_stmt] in Hgap.
+  cbn [after_stmt gk_stmt gapc] in Hgap.
   assert (Hl : len (ffl_stmt (FBlk c1 b c2)) = len c1 + 1 + len (ffl_stmts b) + len c2 + 1) by (flens'; lia).
   destruct fuel as [|f]; [lia|]. rewrite p_stmt_S. comb.
   rewrite (p_tag_no toks (is_k Semic) k r _ _ _ H eq_refl eq_refl).
@@ -301,7 +586,8 @@ Proof.
   pose proof (fx_stmts_len (k + len c1 + 1 - r) b) as Hn.
   rewrite (many0_steps' _ _ _ _ _ f Hst Ee ltac:(lia)). norm.
   destruct (p_tag_at toks (is_k RCurly) _ r _ _ _ H eq_refl) as (t2 & _ & E2). rewrite E2; ifs; norm.
-  cbn [fx_stmt]. unfold mkinfo. rewrite Hl. fteq.
+  change (fx_stmt (k - r) (FBlk c1 b c2)) with (SBlock (fx_stmts (k - r + len c1 + 1) b) (mkinfo (k - r) (k - r + len (ffl_stmt (FBlk c1 b c2))))).
+  unfold mkinfo. rewrite Hl. fteq.
 Qed.
 
 Lemma steps_app {A} (p : parser A) s l1 s1 l2 s2 : steps p s l1 s1 -> steps p s1 l2 s2 -> steps p s (l1 ++ l2) s2.
@@ -310,9 +596,9 @@ Proof. induction 1 as [s|s sa s1 a l Hp Hne Hs IH]; intros H2; cbn [app]; [exact
 Lemma fstmts_here s b : FStmtOK s -> FStmtsOK (FHere s b).
 Proof.
   intros IHs k r rest f Hr Hf Hok H Hfol Hgap. cbn [ffl_stmts] in *. rewrite app_length in *. flat_in H.
-  cbn [orig_stmts else_oks] in Hok. apply andb_prop in Hok. destruct Hok as [Hok1 Hok2]. cbn [after_stmts] in Hgap.
+  cbn [orig_stmts else_oks] in Hok. apply andb_prop in Hok. destruct Hok as [Hok1 Hok2]. cbn [after_stmts gk_stmts] in Hgap.
   pose proof (proj1 ffl_pos s) as Hp. pose proof (fun _ : open_if (orig_stmt s) = true => stmts_follow b rest Hfol) as Hfs.
-  cbn [fx_stmts]. eapply steps_cons with (s1 := mk (k + len (ffl_stmt s)) r).
+  cbn [fxg_stmts]. eapply steps_cons with (s1 := mk (k + len (ffl_stmt s)) r).
   - unfold stmt_ref. comb. rewrite (IHs k k (fl_stmts b ++ rest) f (le_n _)) by side. norm. now rewrite Nat.sub_diag.
   - cbn [pos]. lia.
   - apply at_app in H. pose proof (stmts_ok toks b (k + len (ffl_stmt s)) r rest f ltac:(lia) ltac:(lia) Hok2 H Hfol) as Hb.
@@ -323,10 +609,10 @@ Qed.
 Lemma fstmts_later s b : FStmtsOK b -> FStmtsOK (FLater s b).
 Proof.
   intros IHb k r rest f Hr Hf Hok H Hfol Hgap. cbn [ffl_stmts] in *. rewrite app_length in *. flat_in H.
-  cbn [orig_stmts else_oks] in Hok. apply andb_prop in Hok. destruct Hok as [Hok1 Hok2]. cbn [after_stmts] in Hgap.
+  cbn [orig_stmts else_oks] in Hok. apply andb_prop in Hok. destruct Hok as [Hok1 Hok2]. cbn [after_stmts gk_stmts] in Hgap.
   pose proof (stmt_len_pos s) as Hp.
   pose proof (fun _ : open_if s = true => fstmts_follow b rest) as Hfs.
-  cbn [fx_stmts]. eapply steps_cons with (s1 := mk (k + len (fl_stmt s)) r).
+  cbn [fxg_stmts]. eapply steps_cons with (s1 := mk (k + len (fl_stmt s)) r).
   - unfold stmt_ref. comb. rewrite (proj1 (stmt_all toks) s k k (ffl_stmts b ++ rest) f (le_n _)) by side. norm. now rewrite Nat.sub_diag.
   - cbn [pos]. lia.
   - apply at_app in H. specialize (IHb (k + len (fl_stmt s)) r rest f ltac:(lia) ltac:(lia) Hok2 H Hfol Hgap).
@@ -341,6 +627,10 @@ Proof.
   apply fstmt_mutind.
   - apply fstmt_asg.
   - apply fstmt_cal.
+  - apply fstmt_calp.
+  - apply fstmt_ifp.
+  - apply fstmt_ifpe.
+  - apply fstmt_whlp.
   - intros; now apply fstmt_ift.
   - intros; now apply fstmt_ife1.
   - intros; now apply fstmt_ife2.
